@@ -9,8 +9,12 @@ import (
 	"context"
 
 	"k8s.io/apimachinery/pkg/runtime/schema"
+	"sigs.k8s.io/controller-runtime/pkg/cache"
+	"sigs.k8s.io/controller-runtime/pkg/client"
 	kcontroller "sigs.k8s.io/controller-runtime/pkg/controller"
 	"sigs.k8s.io/controller-runtime/pkg/manager"
+	"sigs.k8s.io/controller-runtime/pkg/reconcile"
+	"sigs.k8s.io/controller-runtime/pkg/source"
 
 	zz "github.com/crossplane/crossplane/internal/zzverif"
 )
@@ -22,6 +26,27 @@ type zzPoints struct {
 	point func()
 }
 
+func (p *zzPoints) GetInformer(ctx context.Context, obj client.Object, opts ...cache.InformerGetOption) (cache.Informer, error) {
+	if p.point != nil {
+		p.point()
+	}
+	return p.zzInformers.GetInformer(ctx, obj, opts...)
+}
+
+// zzPointCtrl is the running controller; its Watch is a scheduling point too
+// (the engine calls it holding the controller's lock).
+type zzPointCtrl struct {
+	*zzCtrl
+	point func()
+}
+
+func (c *zzPointCtrl) Watch(src source.TypedSource[reconcile.Request]) error {
+	if c.point != nil {
+		c.point()
+	}
+	return c.zzCtrl.Watch(src)
+}
+
 func (p *zzPoints) ActiveInformers() []schema.GroupVersionKind {
 	if p.point != nil {
 		p.point()
@@ -30,7 +55,8 @@ func (p *zzPoints) ActiveInformers() []schema.GroupVersionKind {
 }
 
 // HarnessC13Preempt: two actors on one engine. The first performs one engine
-// call; at its j-th call into the informers (a symbolic j) a second actor
+// call; at its j-th call out of the engine (into the informers or the
+// controller's Watch; a symbolic j) a second actor
 // wants to perform another engine call, or the informer of one kind is
 // removed. The harness asks the tracked state of the engine's and the
 // controller's locks whether the second actor could enter right there
@@ -48,7 +74,7 @@ func HarnessC13Preempt() {
 	elected := make(chan struct{})
 	close(elected)
 	e := New(&zzMgr{elected: elected}, infs, nil, nil)
-	ctrl := &zzCtrl{started: make(chan context.Context, 4)}
+	ctrl := &zzPointCtrl{zzCtrl: &zzCtrl{started: make(chan context.Context, 4)}}
 	newCtrl := WithNewControllerFn(func(string, manager.Manager, kcontroller.Options) (kcontroller.Controller, error) { return ctrl, nil })
 	const name = "composite/xrs.example.org"
 	all := zzWatches()
@@ -97,10 +123,10 @@ func HarnessC13Preempt() {
 		e.mx.Unlock()
 		return ok
 	}
-	at := zz.Choose("second.at", 4)
+	at := zz.Choose("second.at", zz.Bound(4, 9))
 	n := 0
 	ran := false
-	infs.point = func() {
+	point := func() {
 		if ran || n != at {
 			n++
 			return
@@ -109,13 +135,14 @@ func HarnessC13Preempt() {
 		if free() {
 			ran = true
 			zz.Cover("second-ran-inside")
-			wasRunning := e.IsRunning(name)
 			second()
-			if wasRunning && !e.IsRunning(name) {
+			if op2 == 0 {
 				zz.Cover("stopped-inside")
 			}
 		}
 	}
+
+	infs.point, ctrl.point = point, point
 
 	// the first actor's call
 	switch zz.Choose("first.op", 3) {
@@ -132,7 +159,7 @@ func HarnessC13Preempt() {
 	case 2:
 		_ = e.Stop(context.Background(), name)
 	}
-	infs.point = nil
+	infs.point, ctrl.point = nil, nil
 	if !ran {
 		ran = true
 		zz.Cover("second-ran-after")
